@@ -224,13 +224,14 @@ def big_programs(tier):
 
 def c20_programs(tier, seed, rnd):
     q = tier == "quick"
-    plans = [("control", A_CONTROL, 6 if q else 7, 800 if q else 12000),
-             ("effects", A_EFFECTS, 6 if q else 7, 600 if q else 8000),
-             ("loops", A_LOOPS, 6 if q else 7, 500 if q else 8000),
-             ("nest", A_NEST, 8 if q else 9, 600 if q else 6000),
-             ("degen", A_DEGEN, 8 if q else 9, 9000 if q else 100000),
-             ("uninit", A_UNINIT, 6 if q else 7, 800 if q else 10000),
-             ("initarm", A_INITARM, 9 if q else 10, 5000 if q else 60000)]
+    # thorough: one more node per alphabet and about three times the quick sample (a tier that takes hours is of no use)
+    plans = [("control", A_CONTROL, 6 if q else 7, 800 if q else 2500),
+             ("effects", A_EFFECTS, 6 if q else 7, 600 if q else 2000),
+             ("loops", A_LOOPS, 6 if q else 7, 500 if q else 1500),
+             ("nest", A_NEST, 8 if q else 9, 600 if q else 2000),
+             ("degen", A_DEGEN, 8 if q else 9, 9000 if q else 30000),
+             ("uninit", A_UNINIT, 6 if q else 7, 800 if q else 2500),
+             ("initarm", A_INITARM, 9 if q else 10, 5000 if q else 15000)]
     progs, results = [], []
     for name, alpha, n, cap in plans:
         c = dict(alpha)
@@ -246,7 +247,7 @@ def c20_programs(tier, seed, rnd):
     # the same programs as DAGs: structurally equal sub-trees are one shared Python object (every second program)
     progs += [dict(p, share=1) for p in progs if has_repeated_subtree(p)][::2]
     # programs with subroutines (recursion, by-reference parameters, routine-private variables - some never initialised)
-    rp, rres = c02_programs(tier, seed, rnd, caps=(300, 80) if q else (6000, 4000))
+    rp, rres = c02_programs(tier, seed, rnd, caps=(300, 80) if q else (1000, 300))
     for p in rp:
         p["smallgrid"] = 2
     progs += rp
@@ -347,7 +348,7 @@ def c02_programs(tier, seed, rnd, alpha=None, caps=None):
         c["MaxNodes"] = nq if q else nt
         c["SigsName"] = sg
         rs, res = gen.run_builder(c, "c02_%s_%d" % (sg, c["MaxNodes"] * 100 + len(c["Stmts"]) * 10 + len(c["Ctrl"])), workers=4, timeout=1500, main_calls=True,
-                                  cap=(min((caps or (6000, 400))[0], 6000 if al is A_REF else 2500 if al is A_REFIF else 900) if (al is A_REF or al is A_ROUTLOOP or al is A_IFCHAIN or al is A_REFIF) else (caps or (6000, 400))[1]) if q else (caps or (8000, 8000))[0],
+                                  cap=(min((caps or (6000, 400))[0], 6000 if al is A_REF else 2500 if al is A_REFIF else 900) if (al is A_REF or al is A_ROUTLOOP or al is A_IFCHAIN or al is A_REFIF) else (caps or (6000, 400))[1]) if q else (caps or (3000, 3000))[0],
                                   rnd=random.Random(seed))
         return sg, c, rs, res
 
